@@ -1,6 +1,141 @@
 import Driver.Util
+import Sqfs.Spec.BlockWriter
+import Sqfs.Model.ToyCodec
+/-!
+`sqfsmodel c08` — line protocol (one result line per input line).
+
+Block writer (state = `Sqfs.BlockWriter.State`)
+* `bw-init <prehex> <wrflags-dec>`                      → `ok`
+* `bw-write <chk-hex> <flags-hex> <datahex>`            → `ok <loc> <filesize> <nblocks>` | `err oob` | `err internal`
+* `bw-file`                                             → `file <hex>`
+Checksum-free specification of the block writer (state = `Sqfs.BlockWriter.SState`)
+* `sp-init <prehex>`                                    → `ok`
+* `sp-write <flags-hex> <datahex>`                      → `ok <loc> <filesize> <nblocks>`
+Fragment side (state = `Sqfs.FragDedup.State`; the checksum function is the table of all `(data, chk)` pairs
+seen so far, i.e. the checksums the *implementation's* worker computed)
+* `fd-init <maxblock-dec> <toy|ident> <bytecompare:0|1>`  → `ok`
+* `fd-frag <flags-hex> <chk-hex> <datahex>`               → `sparse` | `loc <index> <offset>` | `err <kind>`
+* `fd-written <index-dec>`                                → `ok` | `err <kind>`
+* `fd-finish`                                             → `ok`
+* `fd-block <index-dec>`                                  → `block <datahex> <open|flight|written|lost>` | `none`
+* `fd-read <index-dec>`                                   → `read <datahex>` | `none`   (what a reader gets)
+Monitor (stateless; evaluates the specification on bytes the *implementation* produced)
+* `mon-slice <filehex> <loc-dec> <payloadhex>`          → `1` | `0`
+-/
 namespace Driver.C08
-/-- stub: the model driver for C08 is not built yet -/
+open Sqfs.BlockWriter
+
+def hexNat (s : String) : Option Nat :=
+  if s.isEmpty then none
+  else s.toList.foldl (fun acc c => do
+    let a ← acc
+    let v ← hexVal c
+    pure (a * 16 + v)) (some 0)
+
+structure St where
+  bw : State := init []
+  sp : SState := ⟨[], [], 0⟩
+  fd : Sqfs.FragDedup.State := {}
+  codec : Sqfs.FragDedup.Codec := Sqfs.ToyCodec.ident
+  byteCompare : Bool := true
+  maxBlock : Nat := 0
+  htab : List (Bytes × UInt32) := []
+
+def showFdErr : Sqfs.FragDedup.Err → String
+  | .corrupted => "err corrupted"
+  | .outOfBounds => "err oob"
+  | .compressor => "err compressor"
+  | .badEvent => "err bad-event"
+
+def showPlace : Sqfs.FragDedup.Place → String
+  | .opened => "open"
+  | .inFlight => "flight"
+  | .written _ _ => "written"
+  | .lost => "lost"
+
+def showErr : Err → String
+  | .outOfBounds => "err oob"
+  | .internal => "err internal"
+
+def step (st : St) (line : String) : St × String :=
+  match words line with
+  | ["bw-init", pre, wf] =>
+    match fromHex pre, wf.toNat? with
+    | some p, some f => ({ st with bw := init p f }, "ok")
+    | _, _ => (st, "bad-op")
+  | ["bw-write", chk, flags, data] =>
+    match hexNat chk, hexNat flags, fromHex data with
+    | some c, some f, some d =>
+      match writeDataBlock st.bw (UInt32.ofNat c) f d with
+      | .ok (s', loc) => ({ st with bw := s' }, s!"ok {loc} {s'.file.length} {s'.blocks.length}")
+      | .error e => (st, showErr e)
+    | _, _, _ => (st, "bad-op")
+  | ["bw-file"] => (st, "file " ++ toHexTok st.bw.file)
+  | ["sp-init", pre] =>
+    match fromHex pre with
+    | some p => ({ st with sp := ⟨p, [], 0⟩ }, "ok")
+    | none => (st, "bad-op")
+  | ["sp-write", flags, data] =>
+    match hexNat flags, fromHex data with
+    | some f, some d =>
+      let r := specWrite st.sp f d
+      ({ st with sp := r.1 }, s!"ok {r.2} {r.1.file.length} {r.1.hist.length}")
+    | _, _ => (st, "bad-op")
+  | ["fd-init", mb, codec, bc] =>
+    match mb.toNat?, bc.toNat? with
+    | some m, some b =>
+      let cd := if codec = "toy" then Sqfs.ToyCodec.codec m else Sqfs.ToyCodec.ident
+      ({ st with fd := {}, codec := cd, byteCompare := b != 0, maxBlock := m, htab := [] }, "ok")
+    | _, _ => (st, "bad-op")
+  | ["fd-frag", flags, chk, data] =>
+    match hexNat flags, hexNat chk, fromHex data with
+    | some f, some c, some d =>
+      let c32 := UInt32.ofNat c
+      -- SQFS_BLK_DONT_HASH: the worker stores checksum 0 without calling the checksum function
+      if Sqfs.FragDedup.hasFlag f Sqfs.Consts.blkDontHash then
+        (if c32 != 0 then (st, "err dont-hash-nonzero") else go st f d)
+      else
+      match st.htab.lookup d with
+      | some c' => if c' != c32 then (st, "err h-not-a-function") else go st f d
+      | none => go { st with htab := (d, c32) :: st.htab } f d
+    | _, _, _ => (st, "bad-op")
+  | ["fd-written", idx] =>
+    match idx.toNat? with
+    | some i =>
+      match Sqfs.FragDedup.blockWritten st.codec st.fd i with
+      | .ok fd' => ({ st with fd := fd' }, "ok")
+      | .error e => (st, showFdErr e)
+    | none => (st, "bad-op")
+  | ["fd-finish"] => ({ st with fd := Sqfs.FragDedup.closeOpen st.fd }, "ok")
+  | ["fd-block", idx] =>
+    match idx.toNat? with
+    | some i =>
+      match st.fd.blocks[i]? with
+      | some b => (st, "block " ++ toHexTok b.data ++ " " ++ showPlace b.place)
+      | none => (st, "none")
+    | none => (st, "bad-op")
+  | ["fd-read", idx] =>
+    match idx.toNat? with
+    | some i =>
+      match Sqfs.FragDedup.readBlock st.codec st.fd i with
+      | some d => (st, "read " ++ toHexTok d)
+      | none => (st, "none")
+    | none => (st, "bad-op")
+  | ["mon-slice", file, loc, payload] =>
+    match fromHex file, loc.toNat?, fromHex payload with
+    | some f, some l, some p => (st, if slice f l p.length == p then "1" else "0")
+    | _, _, _ => (st, "bad-op")
+  | _ => (st, "bad-op")
+
+where
+  go (st : St) (f : Nat) (d : Bytes) : St × String :=
+    let h : Bytes → UInt32 := fun x => (st.htab.lookup x).getD 0
+    match Sqfs.FragDedup.processFragment st.codec h st.byteCompare st.maxBlock st.fd d f with
+    | .ok (.sparse, fd') => ({ st with fd := fd' }, "sparse")
+    | .ok (.loc i o, fd') => ({ st with fd := fd' }, s!"loc {i} {o}")
+    | .error e => (st, showFdErr e)
+
 def run (_args : List String) : IO Unit := do
-  IO.eprintln "sqfsmodel: model C08 not built yet"
+  stateLoop (← IO.getStdin) (← IO.getStdout) step {}
+
 end Driver.C08
